@@ -302,8 +302,8 @@ def outcomePadded (cfg : Cfg) (c : Case) : Option (List (List Pos)) :=
 part; `get_indexed_symbol` walks them level by level: more subscripts than dimensions at a level is
 "Too many indices" (a subscript on a scalar level "is not an array"), fewer are padded with `:`; the
 (subscript, dimension) pairs of all levels, in order, index the flattened symbol.
-One deviation, recorded as finding C23-F5 with proposed fix C23-4: the tree does not apply the "is not an
-array" test to a subscript that is the bare loop variable; the model does (it follows the fix). -/
+(Before commit 5a52c09 the tree did not apply the "is not an array" test to a subscript that is the bare loop
+variable — finding C23-F5; the model has always followed the fixed behaviour.) -/
 
 /-- a subscript of either kind -/
 inductive ASub where
